@@ -19,9 +19,9 @@ RULE = (
     "non-trivial when it has at least 2 notes; distinct by canonical JSON of (text, expected notes)."
 )
 ASSUMPTIONS = ["the generator renders cells to text faithfully", "fractions.Fraction is exact"]
-MONITORS = ["decode", "repeat_iteration", "ordering_ops", "str_identity", "columns", "via_chart"]
+MONITORS = ["decode", "repeat_iteration", "interleaved_iteration", "ordering_ops", "str_identity", "columns", "via_chart"]
 REQUIRED = ["measure_repeated_after_empty_measures", "odd_rows", "rows_192", "rows_above_192", "keysound_shifts_later_column", "three_players", "crlf",
-            "same_position_pair", "cross_player_pair", "corpus_chart"]
+            "same_position_pair", "cross_player_pair", "corpus_chart", "interleaved_passes_over_keysounded_rows"]
 
 
 def anchors():
@@ -154,6 +154,34 @@ def check(ctx, case):
     if again != notes or head != notes[: len(head)] or (notes and nested != min(3, len(notes)) * len(notes)):
         ctx.violation("decode:iteration-depends-on-earlier-iterations",
                       {"first_full": len(notes), "second_full": len(again), "nested_total": nested, "head": len(head)})
+    # two passes alive at once, advanced alternately by 1-3 notes (the second one started a few notes late):
+    # each must still yield exactly the notes of a pass taken alone
+    ctx.mon("interleaved_iteration")
+    import random as _random
+    from ..core import digest64
+
+    r2 = _random.Random(digest64(text))
+    its = [iter(nd), iter(nd)]
+    outs = [[], []]
+    live = [True, True]
+    outs[0].extend(n for _, n in zip(range(r2.randint(0, 3)), its[0]))
+    turn = 1
+    while any(live):
+        if live[turn]:
+            for _ in range(r2.randint(1, 3)):
+                try:
+                    outs[turn].append(next(its[turn]))
+                except StopIteration:
+                    live[turn] = False
+                    break
+        turn = 1 - turn
+    if outs[0] != notes or outs[1] != notes:
+        w = 0 if outs[0] != notes else 1
+        i = next((i for i, (a, b) in enumerate(zip(outs[w], notes)) if a != b), min(len(outs[w]), len(notes)))
+        ctx.violation("decode:two-passes-alive-at-once-disturb-each-other",
+                      {"pass": w, "index": i, "got": repr(outs[w][i:i + 1]), "alone": repr(notes[i:i + 1]), "text": text[:300]})
+    if len(notes) >= 2 and any(e[5] is not None for e in exp):
+        ctx.feat("interleaved_passes_over_keysounded_rows")
     ctx.mon("decode")
     ok = len(notes) == len(exp)
     bad = None
